@@ -47,9 +47,12 @@ def dicom_spec(rng):
     return ('P%d' % rng.randrange(10 ** rng.randrange(1, 6)), 'N' * rng.randrange(1, 20) if rng.random() < 0.5 else '')
 
 
-def dicom_bytes_of(spec):
-    from nibabel.nifti1 import Nifti1DicomExtension
+def dicom_bytes_of(spec, be=False):
+    """serialised dataset; be=True: as written by an extension attached to a big-endian header"""
+    from nibabel.nifti1 import Nifti1DicomExtension, Nifti1Header
     ds = dicom_obj(spec)
+    if be:
+        return bytes(Nifti1DicomExtension(2, ds, parent_hdr=Nifti1Header(endianness='>'))._mangle(ds))
     return bytes(Nifti1DicomExtension(2, ds)._mangle(ds))
 
 
@@ -67,13 +70,16 @@ def cifti_bytes_of(spec):
     return cifti_obj(spec).to_xml()
 
 
-def make_ext_obj(code, spec, mode, spec0=None):
+def make_ext_obj(code, spec, mode, spec0=None, parent_hdr=None):
     """extension backed by a runtime OBJECT (mode 'object'), or built from the bytes of spec0 and
     then edited in place through get_content() into spec (mode 'edited'); `.content` is never read
     here, so that a stale serialisation cache is not refreshed by the harness itself."""
     from nibabel.nifti1 import Nifti1DicomExtension
     from nibabel.cifti2.parse_cifti2 import Cifti2Extension
     if code == 2:
+        if mode == 'object_be':
+            # dataset attached to a big-endian header: serialised big-endian (parent_hdr decides)
+            return Nifti1DicomExtension(2, dicom_obj(spec), parent_hdr=parent_hdr)
         if mode == 'object':
             return Nifti1DicomExtension(2, dicom_obj(spec))
         e = Nifti1DicomExtension(2, dicom_bytes_of(spec0))
@@ -124,22 +130,29 @@ def gen_cases(chk):
     nrand = chk.n(900, 12000)
     for _ in range(nrand):
         k = rng.choice([0, 1, 1, 2, 2, 3, 4, 6])
+        be = rng.random() < 0.5
         exts = []
         objs = {}
         for j in range(k):
             code = rng.choice(CODES)
-            if code in (2, 32) and rng.random() < 0.6:
+            if code == 2 and be and rng.random() < 0.4:
+                spec = dicom_spec(rng)
+                objs[j] = (spec, 'object_be', spec)
+                exts.append((code, dicom_bytes_of(spec, be=True)))
+            elif code in (2, 32) and rng.random() < 0.6:
                 mk = dicom_spec if code == 2 else cifti_spec
                 by = dicom_bytes_of if code == 2 else cifti_bytes_of
                 spec, spec0 = mk(rng), mk(rng)
                 mode = rng.choice(['object', 'edited'])
                 objs[j] = (spec, mode, spec0)
                 exts.append((code, by(spec)))
+            elif code == 2 and rng.random() < 0.3:
+                # big-endian-serialised DICOM bytes (as found in files written from big-endian headers)
+                exts.append((code, dicom_bytes_of(dicom_spec(rng), be=True)))
             else:
                 exts.append((code, gen_content(rng, code, rng.randrange(0, 71))))
         cls = rng.choice([1, 2])
         single = rng.random() < 0.7
-        be = rng.random() < 0.5
         hs = 348 if cls == 1 else 540
         minv = hs + 4 + sum((len(c) + 23) // 16 * 16 for _, c in exts)
         r = rng.random()
@@ -173,7 +186,7 @@ def impl_run(case):
     for j, (code, content) in enumerate(case['exts']):
         if j in objs or str(j) in objs:
             spec, mode, spec0 = objs.get(j) or objs.get(str(j))
-            img.header.extensions.append(make_ext_obj(code, tuple(spec), mode, tuple(spec0)))
+            img.header.extensions.append(make_ext_obj(code, tuple(spec), mode, tuple(spec0), parent_hdr=img.header))
         else:
             img.header.extensions.append(make_ext(code, content))
     out = {}
